@@ -220,10 +220,6 @@ def primObsS (o : PrimObs) : String :=
 def orderS (x : List Nat × Bool) : String :=
   joinOr "." (x.1.map toString) ++ "|" ++ (if x.2 then "T" else "ok")
 
-/-- `Dev_descriptor_read_order`: `value` is read after writable/get/set (ES5: third), and the conflict
-    TypeError is raised before `value` is read – visible when `value` is present together with another of them -/
-def devReadOrder (d : Desc) : Bool := d.v.isSome && (d.w.isSome || d.g.isPresent || d.s.isPresent)
-
 def builtin? : String → Option Builtin
   | "json" => some .json | "literal" => some .literal | "arrlit" => some .arrlit | "defprops" => some .defprops
   | "create" => some .create | "args" => some .args | "smatch" => some .smatch | "gopd" => some .gopd
@@ -250,7 +246,7 @@ def handle (ws : List String) : String :=
      | _, _, _ => "bad-op")
   | ["r", d] =>
     (match desc? (d.splitOn ".") with
-     | some (.obj d) => orderS (readOrder d) ++ " " ++ orderS (Spec.readOrder d) ++ " " ++ (if devReadOrder d then "descriptor_read_order" else "-")
+     | some (.obj d) => orderS (readOrder d) ++ " " ++ orderS (Spec.readOrder d) ++ " -"
      | _ => "bad-op")
   | ["b", b, _pol] =>
     (match builtin? b with
